@@ -239,7 +239,25 @@ pub fn apply_ops<T: HLabel>(nwl: bool, ops: &[Op<T>]) -> Result<AAFramework<T>, 
     Ok(af)
 }
 
+/// Marker put in front of the error when building the presentation made crustabri panic
+/// (the store or a reader is broken: the business of C12/C13, not of the caller).
+pub const PANIC_MARK: &str = "PANIC while building the presentation: ";
+
 pub fn build_usize(p: &Pres) -> Result<Built<usize>, String> {
+    match crate::report::catch(|| build_usize_inner(p)) {
+        Ok(r) => r,
+        Err(pi) => Err(format!("{}{} at {}", PANIC_MARK, pi.msg, pi.loc)),
+    }
+}
+
+pub fn build_string(p: &Pres) -> Result<Built<String>, String> {
+    match crate::report::catch(|| build_string_inner(p)) {
+        Ok(r) => r,
+        Err(pi) => Err(format!("{}{} at {}", PANIC_MARK, pi.msg, pi.loc)),
+    }
+}
+
+fn build_usize_inner(p: &Pres) -> Result<Built<usize>, String> {
     match p {
         Pres::Iccma { text } => {
             let af = Iccma23Reader::default()
@@ -253,7 +271,7 @@ pub fn build_usize(p: &Pres) -> Result<Built<usize>, String> {
     }
 }
 
-pub fn build_string(p: &Pres) -> Result<Built<String>, String> {
+fn build_string_inner(p: &Pres) -> Result<Built<String>, String> {
     match p {
         Pres::Apx { text, labels } => {
             let af = AspartixReader::default()
@@ -269,6 +287,13 @@ pub fn build_string(p: &Pres) -> Result<Built<String>, String> {
 /// Checks through the public observables that `built` presents exactly `abs`
 /// (arguments and attack *set*).  A mismatch here is reported by the caller.
 pub fn check_presents<T: HLabel>(built: &Built<T>, abs: &Abs) -> Result<(), String> {
+    match crate::report::catch(|| check_presents_inner(built, abs)) {
+        Ok(r) => r,
+        Err(p) => Err(format!("{}{} at {}", PANIC_MARK, p.msg, p.loc)),
+    }
+}
+
+fn check_presents_inner<T: HLabel>(built: &Built<T>, abs: &Abs) -> Result<(), String> {
     if built.af.n_arguments() != abs.n {
         return Err(format!(
             "n_arguments {} != {}",
